@@ -203,6 +203,16 @@ def lite_keep(name):
     return True
 
 
+def scale_keep(name):
+    """For indexes of thousands of pages: the reduced battery, paginations with the default size only
+    (walking 2000+ pages two at a time costs a quadratic number of node reads)."""
+    if name.startswith("paginate_pages"):
+        return " k=None " in name
+    if name.startswith("paginate_pagelinks"):
+        return " c=None " in name and name.endswith(("TrueFalse", "TrueTrue"))
+    return lite_keep(name)
+
+
 def run(t, probes, around=None, foreign=None, lite=False):
     """Execute the battery.  Returns (answers dict, counts).  `around(name, thunk)`
     may wrap each call (read-only window monitor); exceptions become part of the
@@ -210,7 +220,10 @@ def run(t, probes, around=None, foreign=None, lite=False):
     answers = {}
     n_ok = n_refused = n_exc = 0
     for name, thunk in calls(t, probes):
-        if lite and not lite_keep(name):
+        if lite == "scale":
+            if not scale_keep(name):
+                continue
+        elif lite and not lite_keep(name):
             continue
         try:
             if around is not None:
